@@ -532,8 +532,12 @@ func c04RaceScenarios() []c04Race {
 					for _, life := range []int{int(c04Life / time.Second), 0} {
 						for _, ser := range []bool{false, true} {
 							if u != "" {
-								// third thread: thorough tier, trash-by-rename, DELETE only
-								if !vrep.Thorough() || life == 0 || t != "DELETE" {
+								// third thread: trash-by-rename, DELETE only; quick tier: UNTRASH next to the
+								// cheap writer (and next to PUT over an intact copy, Serialize off)
+								if life == 0 || t != "DELETE" {
+									continue
+								}
+								if !vrep.Thorough() && !(u == "UNTRASH" && (w == "TOUCH" || (prev == "intact" && !ser))) {
 									continue
 								}
 							}
